@@ -307,14 +307,23 @@ def run_inproc(tool, argv, stdin_text, cwd, record=True):
 
 
 def run_subproc(tool, argv, stdin_text, cwd, timeout=120):
-    """The same command line as a real process.  stdin is /dev/null unless a text is delivered."""
+    """The same command line as a real process.  Without a delivered text, stdin is a terminal (a pty), as for a
+    user at the console and as in run_inproc; otherwise the text arrives on a pipe."""
+    import pty
     env = dict(os.environ)
     env["PYTHONPATH"] = core.REPO
-    env.pop("PYTHONHASHSEED", None)
     cmd = ["/venv/bin/python", "-W", "ignore", "-m", "yamlpath.commands." + MODNAME[tool]] + list(argv)
-    p = subprocess.run(cmd, cwd=cwd, env=env, input=stdin_text if stdin_text is not None else None,
-                       stdin=subprocess.DEVNULL if stdin_text is None else None,
-                       stdout=subprocess.PIPE, stderr=subprocess.PIPE, text=True, timeout=timeout)
+    if stdin_text is None:
+        master, slave = pty.openpty()
+        try:
+            p = subprocess.run(cmd, cwd=cwd, env=env, stdin=slave, stdout=subprocess.PIPE, stderr=subprocess.PIPE,
+                               text=True, timeout=timeout)
+        finally:
+            os.close(master)
+            os.close(slave)
+    else:
+        p = subprocess.run(cmd, cwd=cwd, env=env, input=stdin_text, stdout=subprocess.PIPE, stderr=subprocess.PIPE,
+                           text=True, timeout=timeout)
     return {"status": p.returncode, "out": p.stdout, "err": p.stderr, "events": None}
 
 
